@@ -1,0 +1,51 @@
+//go:build verif
+
+package server
+
+import (
+	"context"
+
+	"github.com/ipfs/boxo/bitswap/server/internal/decision"
+	bstore "github.com/ipfs/boxo/blockstore"
+	"github.com/libp2p/go-libp2p/core/peer"
+)
+
+// Bridge for the external verification harness: the decision engine lives in
+// an internal package, these aliases make it reachable from outside the module.
+type (
+	VerifEngine       = decision.Engine
+	VerifEnvelope     = decision.Envelope
+	VerifEngineOption = decision.Option
+	VerifPeerTagger   = decision.PeerTagger
+	VerifPeerEntry    = decision.VerifPeerEntry
+)
+
+// VerifEngineConfig selects the engine options the harness varies.
+type VerifEngineConfig struct {
+	MaxQueuedWantlistEntriesPerPeer uint
+	MaxCidSize                      uint
+	WantHaveReplaceSize             int
+	TargetMessageSize               int
+	SendDontHaves                   bool
+	Filter                          PeerBlockRequestFilter // nil = none
+}
+
+// VerifNewEngine is decision.NewEngine with one task worker (which stays parked
+// on the unread outbox; the harness builds envelopes with VerifNextEnvelope).
+func VerifNewEngine(ctx context.Context, bs bstore.Blockstore, tagger VerifPeerTagger, self peer.ID, c VerifEngineConfig) *VerifEngine {
+	opts := []decision.Option{
+		decision.WithTaskWorkerCount(1),
+		decision.WithBlockstoreWorkerCount(2),
+		decision.WithMaxQueuedWantlistEntriesPerPeer(c.MaxQueuedWantlistEntriesPerPeer),
+		decision.WithMaxCidSize(c.MaxCidSize),
+		decision.WithWantHaveReplaceSize(c.WantHaveReplaceSize),
+		decision.WithSetSendDontHave(c.SendDontHaves),
+	}
+	if c.TargetMessageSize > 0 {
+		opts = append(opts, decision.WithTargetMessageSize(c.TargetMessageSize))
+	}
+	if c.Filter != nil {
+		opts = append(opts, decision.WithPeerBlockRequestFilter(c.Filter))
+	}
+	return decision.NewEngine(ctx, bs, tagger, self, opts...)
+}
